@@ -7,7 +7,7 @@ M = 32768
 def schedules(rng, thorough, tlc_losses):
     S = []
     def add(name, **kw):
-        d = dict(name=name, drops=[], dups=[], delays=[], lossPct=0, lossMs=0, outageAtMs=0, outageMs=0, sizes=[1000, M - 1, M, M + 1, 5, 2 * M + 7, 100000], both=False, boundMs=25000)
+        d = dict(name=name, drops=[], dups=[], delays=[], lossPct=0, lossMs=0, outageAtMs=0, outageMs=0, sizes=[1000, M - 1, M, M + 1, 5, 2 * M + 7, 100000], both=False, boundMs=25000, pauseMs=0, lateClose=False)
         d.update(kw); S.append(d)
     add("faithful"); add("faithful-both", both=True)
     add("tiny-writes", sizes=[1] * 50 + [0, 3, 0, 7]); add("one-big-write", sizes=[700000])
@@ -23,6 +23,14 @@ def schedules(rng, thorough, tlc_losses):
     add("drop-fin", drops=[dict(dir=0, kind="fin", no=nframes + 1, times=1)])
     add("drop-fin-x2-both", drops=[dict(dir=0, kind="fin", no=nframes + 1, times=2)], both=True)
     add("drop-req", drops=[dict(dir=0, kind="req", no=0, times=1)]); add("drop-resp", drops=[dict(dir=1, kind="resp", no=0, times=1)])
+    # request/response-like traffic: small writes with pauses; a late duplicate of an old acknowledgement arrives
+    # after the newest frame was lost, and nothing else is in flight
+    for k in (2, 3, 4):
+        for dd in (60, 150, 400):
+            add("stale-ack-%d-after-loss-%dms" % (k, dd), sizes=[3, 3, 5, 4, 6][:k + 1], pauseMs=120, boundMs=12000, lateClose=True,
+                drops=[dict(dir=0, kind="data", no=k + 1, times=1)], dups=[dict(dir=1, kind="ack", no=k + 1, copies=1, dupDelayMs=dd), dict(dir=1, kind="ack", no=k, copies=1, dupDelayMs=120 + dd)])
+            add("stale-ack-%d-after-loss-%dms-both" % (k, dd), sizes=[3, 3, 5, 4, 6][:k + 1], pauseMs=120, boundMs=20000, both=True,
+                drops=[dict(dir=0, kind="data", no=k + 1, times=1)], dups=[dict(dir=1, kind="ack", no=k + 1, copies=1, dupDelayMs=dd)])
     add("drop-first-three", drops=[dict(dir=0, kind="data", no=k, times=1) for k in (1, 2, 3)])
     add("drop-window", drops=[dict(dir=0, kind="data", no=k, times=1) for k in range(1, 11)])
     for pct in (5, 15, 30):
